@@ -59,6 +59,7 @@ impl ActionWrapper {
         copy
     }
 
+    #[cfg_attr(feature = "Verif_Hooks", track_caller)]
     pub fn lock(&self) -> ActionLock {
         self.actions.lock().unwrap()
     }
